@@ -87,7 +87,8 @@ def present(rng, pr, nicks=False):
 
     def ref(c):
         return nick[c - 1] if nick and rng.random() < 0.7 else str(c)
-    sep = lambda: rng.choice([' ', '\n', '  ', '\t', ' /* c */ ', ' /* a /* nested */ b */ ', '\n# comment line\n'])
+    sep = lambda: rng.choice([' ', '\n', '  ', '\t', ' /* c */ ', ' /* a /* nested */ b */ ', '\n# comment line\n',
+                              ' /* ward 7, batch #1 of 2 */ ', ' /* "quoted 0 [tie] */ ', ' /* # */ ', '\n# "x /* not a block comment\n'])
     s = '%d%s%d' % (nc, sep(), pr['seats'])
     if nick:
         s += sep() + '[nick %s]' % ' '.join(nick)
@@ -103,7 +104,15 @@ def present(rng, pr, nicks=False):
         s += sep() + '%d %s 0' % (m, ' '.join(ref(c) for c in r))
         if rng.random() < 0.2:
             s += ' # trailing comment 1 2 3 0\n'
+    eq2 = []
     for m, r in pr.get('eqlines', []):
+        while m > 1 and rng.random() < 0.6:
+            k = rng.randint(1, m - 1)
+            eq2.append((k, r))
+            m -= k
+        eq2.append((m, r))
+    rng.shuffle(eq2)
+    for m, r in eq2:
         s += sep() + '%d %s 0' % (m, ' '.join('='.join(ref(c) for c in g) for g in r))
     s += sep() + '0' + sep()
     s += sep().join('"%s"' % drive.cname(c) for c in range(1, nc + 1))
@@ -114,10 +123,14 @@ def present(rng, pr, nicks=False):
 def gen_c10(rng, n, rules):
     out = []
     for i in range(n):
-        pr = gen.randprofile(rng, maxc=6, maxlines=7, maxm=4, wd=True, und=(rng.random() < 0.3), eq=False)
+        pr = gen.randprofile(rng, maxc=6, maxlines=7, maxm=4, wd=True, und=(rng.random() < 0.3), eq=(i % 3 == 0))
+        if pr['eqlines'] and rng.random() < 0.5:
+            pr['eqlines'].append((rng.randint(2, 5), [rng.sample(range(1, pr['nc'] + 1), min(3, pr['nc']))]))
         base = drive.mkblt(**pr)
         pres = present(rng, pr, nicks=rng.random() < 0.5)
         for rule in rules:
+            if pr['eqlines'] and rule not in ('meek', 'warren'):
+                continue
             for opts, lp in gen.configs(rule, rng):
                 A, B = run2(base, opts, lp, pres, opts, lp)
                 if A['outcome'] == 'reject' or B['outcome'] == 'reject':
